@@ -42,7 +42,8 @@ def job_for(qualname, instance, mode):
                requires=list(c.requires), kind=c.kind, call=c.extra.get('native_call'))
     job['ptypes'] = {p[0]: _ser(p[1]) for p in c.params}
     for k, v in (c.closure_env or {}).items():
-        job['ptypes'][k] = _ser(T.parse_ty(v))
+        if v != 'closure':
+            job['ptypes'][k] = _ser(T.parse_ty(v))
     if instance:
         for k in instance:
             job['ptypes'].pop(k, None)
@@ -62,6 +63,13 @@ def replay_ladder(unit, obl, seed, tier):
     of the unit on the real code (natively)."""
     qn, inst = unit['qualname'], unit['instance']
     out = dict(kind='none', rung=None, tried=0)
+    from .contracts import CONTRACTS
+    c = CONTRACTS[qn]
+    if c.extra.get('method') or any(str(v).startswith('Ref_') or v == 'closure' for v in (c.closure_env or {}).values()):
+        # a method / closure over an object: its counter-model is a heap state, which the native harness cannot
+        # rebuild in general; the violation is reported with the solver's output (no-failing-input-found)
+        out['note'] = 'stateful unit: counter-model is a heap state (see model / smt_head); no native replay'
+        return out
     # rung 1: the solver's model
     if obl.get('model') is not None:
         job = job_for(qn, inst, 'replay')
